@@ -27,6 +27,23 @@ WCA_INTEGRATION = [(-1,), (-3,), (-3, -1), (-3, -2, -1)]
 IMPLICIT_EXC = (TypeError, IndexError, AttributeError, KeyError, NameError, UnboundLocalError, ZeroDivisionError)
 
 
+def implicit_exception(e):
+    """exceptions that are never a deliberate rejection of an input: programming-error types and NumPy's own
+    shape / broadcasting complaints"""
+    if isinstance(e, IMPLICIT_EXC):
+        return True
+    return isinstance(e, ValueError) and any(t in str(e) for t in (
+        'could not be broadcast', 'shape mismatch', 'cannot reshape', 'einstein sum', 'operands', 'dimension mismatch'))
+
+
+def numerical_rejection(e):
+    """explicit rejections whose trigger is a threshold on a (near-)singular quantity: a Cholesky / eigen-solver failure,
+    sklearn's "ill-defined empirical covariance", the finite-ness / sign assertions of the trainers"""
+    return isinstance(e, (np.linalg.LinAlgError, AssertionError, FloatingPointError)) or (
+        isinstance(e, ValueError) and not isinstance(e, (TypeError,)) and any(
+            t in str(e) for t in ('ill-defined empirical covariance', 'infs or NaNs', 'Residuals are not finite', 'x0')))
+
+
 def wca_options(name, ndim):
     """tying options applicable to affiliations with `ndim` axes"""
     opts = WCA_INTEGRATION if name in INTEGRATION else WCA_PLAIN
@@ -417,6 +434,91 @@ def rel_close(a, b, rtol, atol=0.0):
     scale = max(float(np.max(np.abs(a))), float(np.max(np.abs(b))))
     err = float(np.max(np.abs(a - b)))
     return err <= atol + rtol * scale, (err / scale if scale > 0 else err)
+
+
+def conditioning(name, model):
+    """eigenvalue spread of the fitted cACG covariances (1 for the other models): EM on a class that collapsed onto the
+    eigenvalue floor (spread 1e10) amplifies rounding differences accordingly"""
+    if hasattr(model, 'cacg'):
+        ev = np.asarray(model.cacg.covariance_eigenvalues, dtype=np.float64)
+        with np.errstate(all='ignore'):
+            c = float(np.nanmax(ev.max(-1) / ev.min(-1)))
+        return c if np.isfinite(c) else 1e16
+    return 1.0
+
+
+def tolerances(name, *models):
+    """comparison tolerances "up to rounding" for two runs of an EM that agree in exact arithmetic"""
+    if name == 'cbmm':          # solver values replayed (BinghamSolverTape); parameters -1/lambda are ill-conditioned
+        return dict(post=1e-6, param=1e-5, lp=1e-5)
+    c = max(conditioning(name, m) for m in models)
+    return dict(post=min(1e-3, 1e-8 + 1e-14 * c), param=min(1e-2, 1e-6 + 1e-13 * c), lp=min(1e-2, 1e-6 + 1e-13 * c))
+
+
+class TapeMismatch(Exception):
+    pass
+
+
+class BinghamSolverTape:
+    """Record / replay of the external inside the cBMM M-step (`ComplexBinghamTrainer.find_eigenvalues_v3`, a bounded
+    scipy.optimize.least_squares whose result reacts chaotically to 1-ulp changes of ill-conditioned inputs).
+    DESIGN.md 2.1: externals are parameters.  A second run that must agree with a recorded run "up to rounding" gets
+    the recorded solver VALUES for inputs that agree with the recorded INPUTS (matched within the same M-step, so a
+    relabelling of the classes is allowed); an input without a recorded counterpart is a mismatch of the scatter
+    eigenvalues themselves and is reported."""
+
+    def __init__(self, tol=1e-7):
+        self.calls = []
+        self.tol = tol
+        self.worst = 0.0
+
+    def _patch(self, fn):
+        from pb_bss.distribution.complex_bingham import ComplexBinghamTrainer
+        tape = self
+
+        class _Ctx:
+            def __enter__(self_):
+                self_.orig = ComplexBinghamTrainer.__dict__['find_eigenvalues_v3']
+                ComplexBinghamTrainer.find_eigenvalues_v3 = classmethod(fn(self_.orig.__func__))
+                return tape
+
+            def __exit__(self_, *a):
+                ComplexBinghamTrainer.find_eigenvalues_v3 = self_.orig
+        return _Ctx()
+
+    def record(self):
+        def make(orig):
+            def f(cls, scatter_eigenvalues, **kw):
+                out = orig(cls, scatter_eigenvalues, **kw)
+                self.calls.append((np.array(scatter_eigenvalues, dtype=np.float64), np.array(out)))
+                return out
+            return f
+        self.calls = []
+        return self._patch(make)
+
+    def replay(self, steps):
+        per = max(1, len(self.calls) // max(1, int(steps)))
+        state = {'n': 0}
+
+        def make(orig):
+            def f(cls, scatter_eigenvalues, **kw):
+                step = state['n'] // per
+                state['n'] += 1
+                cands = self.calls[step * per:(step + 1) * per]
+                x = np.asarray(scatter_eigenvalues, dtype=np.float64)
+                best, dist = None, np.inf
+                for inp, out in cands:
+                    if inp.shape == x.shape:
+                        d = float(np.max(np.abs(inp - x)))
+                        if d < dist:
+                            best, dist = out, d
+                if best is None or not dist <= self.tol:
+                    raise TapeMismatch(f'M-step {step}: scatter eigenvalues {x.tolist()} have no counterpart in the '
+                                       f'reference run (closest differs by {dist:.3g})')
+                self.worst = max(self.worst, dist)
+                return np.array(best)
+            return f
+        return self._patch(make)
 
 
 def all_perms(K):
